@@ -1,6 +1,7 @@
 //! The registered checks: one function per property id.
 use crate::report::{self, Acc, CheckMeta};
 use crate::sc;
+use crate::sa_checks;
 use crate::zobrist::ZobristHasher;
 use serde_json::{json, Map, Value};
 
@@ -68,9 +69,68 @@ pub fn run_sc_check(id: &str, tier: &str, seed: u64) -> i32 {
     report::finish_check(&meta, &acc, t0.elapsed().as_secs_f64(), extra)
 }
 
+fn real_stub_sa() -> Value {
+    json!({
+        "real": ["uci::play_game_uci dispatch loop", "find_and_play_best_move polling loop", "parse_go_command", "play_out_position/make_move", "get_best_move/alpha_beta_search/quiesce", "generate_moves", "evaluation", "time_control", "std::sync::mpsc (wrapped: scheduling point before send/try_recv/drop)", "OS threads (parked; the kernel releases one at a time)"],
+        "stub": ["Instant/clock (virtual ns)", "thread::sleep (virtual)", "stdin (scripted byte stream with arrival times and EOF)", "stdout (recorded)", "process::exit (recorded, unwinds)", "simple_logging (no file is opened)", "GUI (scripted client)"],
+        "not_run": ["main.rs (clap front end, mimalloc)"]
+    })
+}
+
+pub fn run_sa_check(id: &str, tier: &str, seed: u64) -> i32 {
+    let t0 = std::time::Instant::now();
+    let mut j = sa_checks::Judge::default();
+    match id {
+        "C03" => j.c03 = true,
+        "C08" => j.c08 = true,
+        "C09" => j.c09 = true,
+        _ => {}
+    }
+    let n: u64 = match tier {
+        "quick" => 6_000,
+        _ => 120_000,
+    };
+    // fault-free configuration (strict oracle) and fault-injecting configuration, separately
+    let mut acc = report::par_acc(n / 3, |r| sa_checks::run_one(seed, r, &format!("{}-clean", id), j, false));
+    let clean_evals = acc.evals;
+    let faulty = report::par_acc(n - n / 3, |r| sa_checks::run_one(seed, r, &format!("{}-faulty", id), j, true));
+    acc.merge(faulty);
+    if id == "C09" {
+        let cfgacc = crate::c09::sweep(seed, tier);
+        acc.merge(cfgacc);
+    }
+    minimise_all(&mut acc, |v| if v.scenario["family"] == "SA" { sa_checks::minimise(v, j) } else { v.clone() });
+    let rule = match id {
+        "C03" => "GUI scripts of 1-3 games (position by FEN or startpos+moves from the workload library, 1-4 go each incl. consecutive go without position; go with no/zero/negative clocks and timed plans of 1-50 virtual ms) run under the DES kernel, one third fault-free and two thirds with a random subset of {stall_search, oversleep_io, spawn_delay, pause_all, poll jitter, slow box, pipelined GUI}. An evaluation is one go on a non-terminal position. Non-trivial: distinct (position, interleaving signature) pairs in which >= 2 sends raced the deadline or the first send came after the deadline (fallback path).",
+        "C08" => "same session generator with terminal positions (mates and stalemates given by FEN and reached by moves) mixed in; bounded-liveness oracle on virtual time relative to the engine's own plan and to the delays the simulator itself injected; exact hang detection. An evaluation is one go. Non-trivial: distinct go commands on terminal positions, with the first send after the deadline, or overlapped by an injected delay.",
+        "C09" => "(i) measured go->bestmove delay of every simulated go against the engine's own plan (lower bound: plan; upper bound: as C08) under fault-free and timing-fault configurations; (ii) plan vs the policy model (exact rational arithmetic) over a sweep of clock/inc/movestogo/side configurations around the margin and sign boundaries and over every go line the sessions issued. Non-trivial: distinct (interleaving signature, go line) pairs for (i), distinct configuration classes for (ii).",
+        _ => "",
+    };
+    let meta = CheckMeta {
+        id,
+        tier,
+        seed,
+        level: "exploration",
+        rule,
+        assumptions: vec![
+            "virtual time is a model: c_node per searched node, 1 us per seam call, sleeps by their duration plus injected oversleep; bounds are stated relative to delays the simulator injected".into(),
+            "the seam mirrors std for read_line, mpsc disconnection, panic-kills-thread and exit".into(),
+            "the referee is right (perft self-check at start)".into(),
+        ],
+        real_stub: real_stub_sa(),
+    };
+    let mut extra = Map::new();
+    extra.insert("runs".into(), json!(n));
+    extra.insert("runs_fault_free".into(), json!(n / 3));
+    extra.insert("evaluations_fault_free".into(), json!(clean_evals));
+    extra.insert("fault_catalogue".into(), sa_checks::fault_catalogue());
+    report::finish_check(&meta, &acc, t0.elapsed().as_secs_f64(), extra)
+}
+
 pub fn run_check(id: &str, tier: &str, seed: u64) -> i32 {
     match id {
         "C01" | "C02" | "C04" | "C05" | "C13" => run_sc_check(id, tier, seed),
+        "C03" | "C08" | "C09" => run_sa_check(id, tier, seed),
         _ => {
             eprintln!("unknown or unclaimed property {}", id);
             2
